@@ -873,7 +873,41 @@ impl World for VaultW {
 const SMALL: &[usize] = &[0, 1];
 const HUGE: &[usize] = &[2];
 
+fn timing() {
+    let w = VaultW { offset: 3, deep: true, seeds: SMALL, tag: "t" };
+    let t = std::time::Instant::now();
+    for _ in 0..300 { let _ = w.fresh(0); }
+    eprintln!("fresh: {:?}/call", t.elapsed() / 300);
+    let (i, _m) = w.fresh(0);
+    let t = std::time::Instant::now();
+    for _ in 0..300 { let _ = w.observe(&i); }
+    eprintln!("observe: {:?}/call", t.elapsed() / 300);
+    let t = std::time::Instant::now();
+    for _ in 0..3000 { let _ = w.geti(&i, &i.vault, "total_supply", SVec::new(&i.e)); }
+    eprintln!("view total_supply: {:?}/call", t.elapsed() / 3000);
+    let t = std::time::Instant::now();
+    for _ in 0..3000 { let _ = w.geti(&i, &i.vault, "preview_deposit", (5i128,).into_val(&i.e)); }
+    eprintln!("view preview_deposit: {:?}/call", t.elapsed() / 3000);
+    let t = std::time::Instant::now();
+    for _ in 0..1000 { let _ = w.call(&i, F::Deposit, 0, 0, 0, 1); }
+    eprintln!("deposit ok: {:?}/call", t.elapsed() / 1000);
+    let t = std::time::Instant::now();
+    for _ in 0..1000 { let _ = w.call(&i, F::Withdraw, 1, 1, 1, 1); }
+    eprintln!("withdraw refused: {:?}/call", t.elapsed() / 1000);
+    let t = std::time::Instant::now();
+    for _ in 0..1000 { let _ = w.key(&i); }
+    eprintln!("key: {:?}/call", t.elapsed() / 1000);
+    let t = std::time::Instant::now();
+    for _ in 0..1000 { let _ = last_events(&i.e); }
+    eprintln!("events: {:?}/call", t.elapsed() / 1000);
+}
+
 fn main() {
+    if std::env::var("C05_TIMING").is_ok() {
+        vh::report::quiet_panics();
+        timing();
+        return;
+    }
     main_with(
         "C05",
         "model_checking",
